@@ -54,23 +54,67 @@ var n2Fields = map[string]string{
 
 // Reasoned exceptions: construct -> reason (one named construct each).
 var e2Exceptions = map[string]string{
-	"netpol/eval.(*PolicyEngine).removeRepresentativePeersMatchingLabels: deref of netpol/eval/internal/k8s.Pod.RepresentativeNsLabelSelector [N2]":                                                                                               "entries of representativePeersMap are created only by addRepresentativePod, which stores a non-nil namespace selector (nil with an empty namespace is an error return, nil with a namespace is replaced by the name-label selector)",
 	"netpol/eval.(*evalCache).deleteWorkload: deref of netpol/eval.evalCache.cache [N2]":                                                                                                                                                          "cache is nil only when lru.New fails, which it does only for size <= 0; newEvalCacheWithSize clamps the size to [10,10000]. Not reachable by any input",
 	"netpol/eval.(*PolicyEngine).getPoliciesSelectingPod: assertion peer.(*k8s.PodPeer) [N7]":                                                                                                                                                     "dominated by the PeerType()==IPBlockType early return; the only non-IP implementation of k8s.Peer is *PodPeer",
-	"netpol/eval/internal/k8s.ruleConnections: deref of ‹k8s.Peer›.GetPeerPod() [N3]":                                                                                                                                                             "reached only through updatePolicyConns after egressRuleSelectsPeer/ingressRuleSelectsPeer matched a Namespaces/Pods peer, which never match an IP block (C02-d), so dst is a pod; ANP named ports on IP destinations cannot occur",
-	"netpol/eval/internal/k8s.anpPortContains: deref of ‹k8s.Peer›.GetPeerPod() [N3]":                                                                                                                                                             "same invariant as ruleConnections: the rule's peer matched dst before the ports are examined, and admin-policy peers never match IP blocks",
-	"netpol/eval.updatePeerXgressClusterWideExposure: deref of ‹k8s.Peer›.GetPeerPod() [N3]":                                                                                                                                                      "called with the policy that selected dst for ingress; NetworkPolicies select only pods (getPoliciesSelectingPod returns none for an IP block) / called with the policy that selected src for egress; NetworkPolicies select only pods",
 	"netpol/eval/internal/k8s.doesNamespacesFieldMatchPeer: deref of ‹k8s.Peer›.GetPeerNamespace() [N3]":                                                                                                                                          "peer is a pod here (IP test above); namespace objects are attached by getPeer/convertPeerToPodPeer for every real pod, and representative peers (nil namespace) never meet admin policies because exposure analysis rejects admin policies at insertion",
 	"netpol/eval/internal/k8s.doesPodsFieldMatchPeer: deref of ‹k8s.Peer›.GetPeerNamespace() [N3]":                                                                                                                                                "same as doesNamespacesFieldMatchPeer",
 	"netpol/eval.(*PolicyEngine).removeRedundantRepresentativePeers: deref of ‹*eval.PolicyEngine›.namespacesMap[‹*k8s.Pod›.Namespace] [N5]":                                                                                                      "the namespace was inserted by the resolveSingleMissingNamespace call that precedes the lookup in the same function (its error is returned before)",
 	"netpol/internal/common.(*ConnectionSet).ReplaceNamedPortWithMatchingPortNum: deref of ‹*common.PortSet› (alias of ‹*common.ConnectionSet›.AllowedProtocols[‹v1.Protocol›] [N5]) [N4]":                                                        "called only from checkAndConvertNamedPortsInConnection with protocols that are keys of GetNamedPorts() of the very set the copy was made from, so the protocol is present",
-	"netpol/connlist.(*exposureMaps).appendPeerXgressExposureData: deref of ‹*connlist.exposureMaps›.ingressExposureMap[‹connlist.Peer›] [N5]":                                                                                                    "every call is dominated by addNewEntry(peer, _, isIngress) on the same peer and direction in the calling function (checked by rule E2-N5-pre)",
-	"netpol/connlist.(*exposureMaps).appendPeerXgressExposureData: deref of ‹*connlist.exposureMaps›.egressExposureMap[‹connlist.Peer›] [N5]":                                                                                                     "every call is dominated by addNewEntry(peer, _, isIngress) on the same peer and direction in the calling function (checked by rule E2-N5-pre)",
 	"netpol/eval.(*PolicyEngine).GetSelectedPeers: assertion ‹eval.Peer›.(*k8s.WorkloadPeer) [N7]":                                                                                                                                                "peer ranges over the values of createPodOwnersMap, which stores only &k8s.WorkloadPeer{} (its single store, checked by rule E2-N7-store)",
 	"netpol/eval.(*PolicyEngine).allAllowedConnectionsBetweenPeers: assertion ‹eval.Peer›.(k8s.Peer) [N7]":                                                                                                                                        "callers pass only *k8s.PodPeer (converted) or IP peers under IsPeerIPType (checked by rule E2-N7-callers)",
 	"netpol/diff.(mapListConnPairs).mergeBySrcOrDstIPPeers: constant index ‹[]*diff.connsPair›[0] [N8]":                                                                                                                                           "srcOrdstIPgroup ranges over the values of a map whose entries are created only by append of one element (diffMap.update / addConnsPair), hence non-empty",
 	"netpol/eval.(*PolicyEngine).insertWorkload: ‹*k8s.Pod› (declared without initialiser and assigned only by a range loop that may not run) passed to netpol/eval.(*PolicyEngine).removeRedundantRepresentativePeers (dereferenced there) [N4]": "PodsFromWorkloadObject returns a slice of numReplicas pods and numReplicas is only ever the constant 1 or 2, so the loop runs at least once (checked by rule E2-N4-len)",
 	"netpol/connlist/internal/ingressanalyzer.(*IngressAnalyzer).getIngressPeerConnection: deref of ‹*common.ConnectionSet› (alias of result of netpol/eval.GetPeerExposedTCPConnections (has a `return nil`) [N11]) [N11]":                       "GetPeerExposedTCPConnections returns nil only for IP peers and unknown peer types; the peers here are the values stored by mapServiceToPeers, which come from GetSelectedPeers and are *k8s.WorkloadPeer (E2-N7-store)",
+}
+
+// Peer-type invariants of parameters (N3): "function | param#i | @notIP" -> why the parameter is a pod peer whenever the
+// function runs. The dereference may sit in the function itself or in a helper it hands the parameter to.
+var n3ParamInvariant = map[string]string{
+	"netpol/eval/internal/k8s.ruleConnections | param#1 | @notIP":        "reached only through updatePolicyConns after egressRuleSelectsPeer/ingressRuleSelectsPeer matched a Namespaces/Pods peer, which never match an IP block (C02-d), so dst is a pod; ANP named ports on IP destinations cannot occur",
+	"netpol/eval/internal/k8s.anpPortContains | param#3 | @notIP":        "same invariant as ruleConnections: the rule's peer matched dst before the ports are examined, and admin-policy peers never match IP blocks",
+	"netpol/eval.updatePeerXgressClusterWideExposure | param#1 | @notIP": "called with the policy that selected src for egress; NetworkPolicies select only pods (getPoliciesSelectingPod returns none for an IP block)",
+	"netpol/eval.updatePeerXgressClusterWideExposure | param#2 | @notIP": "called with the policy that selected dst for ingress; NetworkPolicies select only pods (getPoliciesSelectingPod returns none for an IP block)",
+}
+
+// Lookups that the callers make present (N5): "function | lookup keyed by param#i" -> reason. Covers every map lookup
+// in the function whose key is that parameter, however the map is reached (a field, an accessor, a local alias).
+var n5KeyedByParam = map[string]string{
+	"netpol/connlist.(*exposureMaps).appendPeerXgressExposureData | lookup keyed by param#0": "every call is dominated by addNewEntry(peer, _, isIngress) on the same peer and direction in the calling function (checked by rule E2-N5-pre)",
+}
+
+// Field invariants that hold inside one function (N2): "function | owner.Field" -> why the field is set for the values the
+// function handles. Covers a dereference in the function and one in a helper the value is handed to.
+var n2FieldInvariant = map[string]string{
+	"netpol/eval.(*PolicyEngine).removeRepresentativePeersMatchingLabels | netpol/eval/internal/k8s.Pod.RepresentativeNsLabelSelector": "entries of representativePeersMap are created only by addRepresentativePod, which stores a non-nil namespace selector (nil with an empty namespace is an error return, nil with a namespace is replaced by the name-label selector)",
+}
+
+// suffixField describes the last field of arg<suffix> as "pkg.Type.Field" ("" when it cannot be resolved).
+func suffixField(info *types.Info, arg ast.Expr, suffix string) string {
+	t := info.TypeOf(arg)
+	desc := ""
+	for _, name := range strings.Split(strings.TrimPrefix(suffix, "."), ".") {
+		if t == nil {
+			return ""
+		}
+		if pt, ok := t.Underlying().(*types.Pointer); ok {
+			t = pt.Elem()
+		}
+		obj, _, _ := types.LookupFieldOrMethod(t, true, nil, name)
+		if obj == nil && core.NamedOf(t) != nil && core.NamedOf(t).Obj().Pkg() != nil {
+			obj, _, _ = types.LookupFieldOrMethod(t, true, core.NamedOf(t).Obj().Pkg(), name)
+		}
+		fld, ok := obj.(*types.Var)
+		if !ok {
+			return ""
+		}
+		owner := ""
+		if nt := core.NamedOf(t); nt != nil && nt.Obj().Pkg() != nil {
+			owner = core.ShortPkg(nt.Obj().Pkg().Path()) + "." + nt.Obj().Name()
+		}
+		desc = owner + "." + name
+		t = fld.Type()
+	}
+	return desc
 }
 
 type nilAnalysis struct {
@@ -165,11 +209,12 @@ func (a *nilAnalysis) resolve() {
 // ---------------------------------------------------------------- per function
 
 type nilFunc struct {
-	a      *nilAnalysis
-	fd     *core.FuncDecl
-	info   *types.Info
-	w      *facts.Walker
-	params map[types.Object]int
+	a       *nilAnalysis
+	fd      *core.FuncDecl
+	info    *types.Info
+	w       *facts.Walker
+	params  map[types.Object]int
+	n5Param map[string]int // printed map lookups keyed by a parameter -> parameter index
 	// locals that may hold nil: var x *T (no init), x := nil, or alias of a maybe-nil source
 	seeded map[types.Object]string
 	// v, err := f(): v -> (err object, version path of err at the definition)
@@ -607,11 +652,34 @@ func (f *nilFunc) source(e ast.Expr, fm facts.Formula) (kind, desc string) {
 	case *ast.IndexExpr:
 		if mt, ok := f.info.TypeOf(x.X).Underlying().(*types.Map); ok {
 			if _, isPtr := mt.Elem().Underlying().(*types.Pointer); isPtr {
-				return "N5", core.Stable(f.info, x)
+				d := core.Stable(f.info, x)
+				if id, isId := ast.Unparen(x.Index).(*ast.Ident); isId {
+					if idx, isParam := f.params[f.info.ObjectOf(id)]; isParam {
+						if f.n5Param == nil {
+							f.n5Param = map[string]int{}
+						}
+						f.n5Param[d] = idx
+					}
+				}
+				return "N5", d
 			}
 		}
 	}
 	return "", ""
+}
+
+// paramKeyedLookup: desc describes (an alias of) a map lookup keyed by a parameter for which the function has a tabled
+// caller-side guarantee.
+func (f *nilFunc) paramKeyedLookup(desc string) (string, string, bool) {
+	for d, idx := range f.n5Param {
+		if desc == d || strings.Contains(desc, "alias of "+d+" [N5]") {
+			key := fmt.Sprintf("%s | lookup keyed by param#%d", f.fd.Key(), idx)
+			if why, ok := n5KeyedByParam[key]; ok {
+				return key, why, true
+			}
+		}
+	}
+	return "", "", false
 }
 
 func fieldDesc(info *types.Info, se *ast.SelectorExpr) string {
@@ -721,6 +789,19 @@ func (f *nilFunc) addRequires(idx int, suffix, witness string) {
 	}
 }
 
+// requirePeerType records that parameter idx of the current function must have the given peer type: discharged by a
+// tabled invariant of that parameter, or exported to the callers.
+func (f *nilFunc) requirePeerType(idx int, req string, pos string) {
+	key := fmt.Sprintf("%s | param#%d | %s", f.fd.Key(), idx, req)
+	if why, ok := n3ParamInvariant[key]; ok {
+		if f.a.report {
+			f.a.r.Add("E2-N3", key, pos, core.Excepted, why)
+		}
+		return
+	}
+	f.addRequires(idx, req, pos)
+}
+
 // deref handles one dereference of target t.
 func (f *nilFunc) deref(t ast.Expr, at ast.Node, fm facts.Formula) {
 	t = ast.Unparen(t)
@@ -763,12 +844,45 @@ func (f *nilFunc) deref(t ast.Expr, at ast.Node, fm facts.Formula) {
 			return
 		}
 	}
-	if !f.a.report {
-		return
-	}
 	c := f.construct("deref of "+desc, kind)
 	if why, ok := e2Exceptions[c]; ok {
-		f.a.r.Add("E2-"+kind, c, f.a.p.Pos(at.Pos()), core.Excepted, why)
+		if f.a.report {
+			f.a.r.Add("E2-"+kind, c, f.a.p.Pos(at.Pos()), core.Excepted, why)
+		}
+		return
+	}
+	if why, ok := n2FieldInvariant[f.fd.Key()+" | "+desc]; ok && kind == "N2" {
+		if f.a.report {
+			f.a.r.Add("E2-N2", f.fd.Key()+" | "+desc, f.a.p.Pos(at.Pos()), core.Excepted, why)
+		}
+		return
+	}
+	if key, why, ok := f.paramKeyedLookup(desc); ok && (kind == "N5" || kind == "N4") {
+		if f.a.report {
+			f.a.r.Add("E2-N5", key, f.a.p.Pos(at.Pos()), core.Excepted, why)
+		}
+		return
+	}
+	// N3 on a peer parameter (a helper extracted from a guarded region): the peer-type precondition goes to the callers
+	if kind == "N3" {
+		if call, isCall := t.(*ast.CallExpr); isCall {
+			if se, isSe := call.Fun.(*ast.SelectorExpr); isSe {
+				fn := core.Callee(f.info, call)
+				if idx, suffix, isParam := f.paramSuffix(se.X); isParam && suffix == "" && fn != nil && !strings.Contains(fn.Name(), "Namespace") {
+					req := "@notIP"
+					if strings.Contains(fn.Name(), "IPBlock") {
+						req = "@isIP"
+					}
+					f.requirePeerType(idx, req, f.a.p.Pos(at.Pos()))
+					if f.a.report {
+						f.a.r.OK("E2-"+kind, c, f.a.p.Pos(at.Pos()), "a precondition on the parameter: a tabled invariant of it, or every call site must establish the peer type of the argument")
+					}
+					return
+				}
+			}
+		}
+	}
+	if !f.a.report {
 		return
 	}
 	f.a.r.Bad("E2-"+kind, c, f.a.p.Pos(at.Pos()),
@@ -888,6 +1002,36 @@ func (f *nilFunc) call(c *ast.CallExpr, fm facts.Formula) {
 }
 
 func (f *nilFunc) argObligation(c *ast.CallExpr, callee *types.Func, idx int, suffix string, arg ast.Expr, witness string, fm facts.Formula) {
+	if suffix == "@notIP" || suffix == "@isIP" {
+		isIP := facts.Formula(facts.Atom("isIP:" + f.w.Path(arg)))
+		want := isIP
+		if suffix == "@notIP" {
+			want = facts.Not{X: isIP}
+		}
+		cst := f.construct(fmt.Sprintf("%s passed to %s (its peer-type getter is dereferenced there)", core.Stable(f.info, arg), core.FuncKey(callee)), "N3")
+		if facts.Entails(fm, want) {
+			if f.a.report {
+				f.a.r.OK("E2-N3", cst, f.a.p.Pos(c.Pos()), "the call site establishes the peer type the callee relies on")
+			}
+			return
+		}
+		if why, ok := e2Exceptions[cst]; ok {
+			if f.a.report {
+				f.a.r.Add("E2-N3", cst, f.a.p.Pos(c.Pos()), core.Excepted, why)
+			}
+			return
+		}
+		if pi, ps, ok := f.paramSuffix(arg); ok && ps == "" {
+			f.requirePeerType(pi, suffix, f.a.p.Pos(c.Pos()))
+			return
+		}
+		if f.a.report {
+			f.a.r.Bad("E2-N3", cst, f.a.p.Pos(c.Pos()),
+				fmt.Sprintf("%s dereferences a peer-type getter of this argument (at %s) and the call site does not establish the peer type (%s)", core.FuncKey(callee), witness, suffix),
+				"caller: "+f.fd.Key(), "call: "+core.ExprStr(c)+" at "+f.a.p.Pos(c.Pos()), "facts in scope: "+facts.StripVersions(facts.String(fm)))
+		}
+		return
+	}
 	path := f.w.Path(arg) + suffix
 	if suffix == "" {
 		kind, desc := f.source(arg, fm)
@@ -924,6 +1068,12 @@ func (f *nilFunc) argObligation(c *ast.CallExpr, callee *types.Func, idx int, su
 	if facts.Entails(fm, facts.Not{X: facts.Atom("nil:" + path)}) {
 		if f.a.report {
 			f.a.r.OK("E2-N1", f.construct(fmt.Sprintf("%s%s established non-nil for %s", core.Stable(f.info, arg), suffix, core.FuncKey(callee)), "N1"), f.a.p.Pos(c.Pos()), "the call site establishes the callee's requires-summary")
+		}
+		return
+	}
+	if why, ok := n2FieldInvariant[f.fd.Key()+" | "+suffixField(f.info, arg, suffix)]; ok {
+		if f.a.report {
+			f.a.r.Add("E2-N2", f.fd.Key()+" | "+suffixField(f.info, arg, suffix), f.a.p.Pos(c.Pos()), core.Excepted, why)
 		}
 		return
 	}
